@@ -244,3 +244,39 @@ class Image:
             for off, kind, pl, ln in self.ext:
                 f.seek(off)
                 f.write(pl if kind == 0 else pattern.span(pl[0], pl[1], ln))
+
+
+def slot_range(lo, hi, used):
+    """range(lo, hi) for small layouts; for sparse high placements only the used slots and their neighbours."""
+    if hi - lo <= 200000:
+        return range(lo, hi)
+    s = set()
+    for p in used:
+        s.update((p - 1, p, p + 1))
+    return sorted(p for p in s if lo <= p < hi)
+
+
+class SparseStates:
+    """A states list of length n in which only `items` ({index: token}) differ from `default` (used for huge disks)."""
+
+    def __init__(self, n, default, items):
+        self.n, self.default, self.items = n, default, dict(items)
+
+    def __len__(self):
+        return self.n
+
+    def __getitem__(self, i):
+        return self.items.get(i, self.default)
+
+
+def entries(states, slots):
+    """(i, state, slot) for every unit -- for SparseStates only the non-default units (builders skip defaults anyway)."""
+    if isinstance(states, SparseStates):
+        return [(i, st, slots.get(i)) for i, st in sorted(states.items.items())]
+    return [(i, st, p) for i, (st, p) in enumerate(zip(states, slots))]
+
+
+def entries1(states):
+    if isinstance(states, SparseStates):
+        return sorted(states.items.items())
+    return list(enumerate(states))
